@@ -342,6 +342,7 @@ class Joiner:
                     self.changed = True
         # facts of A that survive in B (under sigma in keep mode)
         facts = []
+        dropped_dirs = set()
         for f in A.facts:
             if self.keep:
                 g = f.subst(self.sigma) if self.sigma else f
@@ -375,11 +376,17 @@ class Joiner:
             else:
                 if self.keep:
                     self.why.append("fact dropped %r (as %r; sigma=%r; Bfacts=%r)" % (f, f.subst(self.sigma) if self.sigma else f, self.sigma, B.facts[:8]))
+                    if self.widen:
+                        dropped_dirs.add(f - f.c)
                 self.changed = self.changed or self.keep
         if not self.keep:
             for f in B.facts:
                 if f not in facts and all(self.common(s) for s in f.syms()) and A.prove_ge0(f):
                     facts.append(f)
+        if dropped_dirs:
+            # widening: once a bound e + c >= 0 failed, the whole family e + c' >= 0 (a staircase of ever weaker constants
+            # accumulated during the non-widening rounds) is given up at once
+            facts = [f for f in facts if (f - f.c) not in dropped_dirs]
         out.facts = facts
         # a joined integer expressed as (common part + fresh symbol) still lies in its type's range
         for lin, w, sg in self.ty_facts:
@@ -434,6 +441,12 @@ class Joiner:
                 da = A.interval(la - rl)
                 db = B.interval(lb - rl)
                 lo, hi = _hull(da, db)
+                if self.widen:
+                    # widening of relational constants: a bound that the arrival has just weakened is given up
+                    if lo != da[0]:
+                        lo = None
+                    if hi != da[1]:
+                        hi = None
                 if lo is not None and (lo == hi or abs(lo) <= 4096):
                     out.facts.append(Lin.sym(s) - rl - lo)
                 else:
@@ -488,7 +501,13 @@ class Joiner:
                         break
                     if i >= 8 or j >= 8:
                         continue      # beyond the first few symbols only the (cheap) definitional relation is tried
-                    lo, hi = _hull(A.interval(ea), B.interval(eb))
+                    ia = A.interval(ea)
+                    lo, hi = _hull(ia, B.interval(eb))
+                    if self.widen:
+                        if lo != ia[0]:
+                            lo = None
+                        if hi != ia[1]:
+                            hi = None
                     e = Lin.sym(s1) + Lin.sym(s2, sign)
                     if sign == -1:
                         if lo is not None and abs(lo) <= 64:
